@@ -147,6 +147,24 @@ def _with_dummy(script, witness, sel):
     return None
 
 
+def _reencode_first_push(script):
+    """the script with its first direct push of 20..75 bytes re-encoded as OP_PUSHDATA1, or None"""
+    pc = 0
+    while pc < len(script):
+        op = script[pc]
+        if 20 <= op <= 75 and pc + 1 + op <= len(script):
+            return script[:pc] + b"\x4c" + script[pc:]
+        if 1 <= op <= 75:
+            pc += 1 + op
+        elif op == 0x4c and pc + 1 < len(script):
+            pc += 2 + script[pc + 1]
+        elif op in (0x4d, 0x4e):
+            return None
+        else:
+            pc += 1
+    return None
+
+
 def _sig_items(script, witness):
     """(where, index, blob) of everything in the unlocking data that looks like a DER signature plus hash-type byte"""
     out = []
@@ -272,6 +290,17 @@ def mutate(model, mut):
         if not pos:
             return m, "nop"
         uns[j] = (uns[j][0], flip(uns[j][1], pos[mut[2] % len(pos)], mut[3]))
+    elif kind == "spent_script_reencode":
+        # the recorded spent script keeps its meaning but not its bytes: its first data push is rewritten with OP_PUSHDATA1
+        # (legacy digests commit to the exact bytes; the reference interpreter decides)
+        j = mut[1] % n_in
+        if not known_unspent(m, j):
+            return m, "nop"
+        new = _reencode_first_push(uns[j][1])
+        if new is None:
+            return m, "nop"
+        uns[j] = (uns[j][0], new)
+        ins[j]["spk_reencoded"] = True
     elif kind == "unspents":
         how = mut[1]
         if how == "empty":
@@ -339,6 +368,8 @@ class Signed:
             return False, "no-unlocking-data"
         if model["ins"][p].get("tampered"):
             return None, "signature-bytes-changed"
+        if model["ins"][p].get("spk_reencoded"):
+            return None, "spent-script-re-encoded"
         view = committed_view(model, p, self.eff[q], self.algo[q])
         if model["unspents"][p][1] != self.spk0[q]:
             if len(view) == 1 and view == self.view0[q]:
@@ -413,7 +444,7 @@ def full_catalogue(model, seed):
     muts = [["version", nxt(32)], ["lock_time", nxt(32)]]
     for j in range(n_in):
         muts += [["prev_hash", j, nxt(256)], ["prev_index", j, nxt(32)], ["sequence", j, nxt(32)], ["spent_amount", j, nxt(51)],
-                 ["spent_script", j, nxt(200), nxt(8)], ["remove_in", j], ["unspents", "none", j], ["unspents", "short", j]]
+                 ["spent_script", j, nxt(200), nxt(8)], ["spent_script_reencode", j], ["remove_in", j], ["unspents", "none", j], ["unspents", "short", j]]
         muts += [["swap_in", j, b] for b in range(j + 1, n_in)]
         muts += [["swap_unlock", j, b] for b in range(j + 1, n_in)]
         muts += [["dummy", j, nxt(8)]]
@@ -471,6 +502,7 @@ def s_mutation():
         st.tuples(st.just("sig_hashtype"), j, st.integers(0, 3), st.integers(0, 7)),
         st.tuples(st.just("spent_amount"), j, st.integers(0, 50)),
         st.tuples(st.just("spent_script"), j, st.integers(0, 200), st.integers(0, 7)),
+        st.tuples(st.just("spent_script_reencode"), j),
         st.tuples(st.just("unspents"), st.sampled_from(["empty", "short", "none"]), j),
     ).map(list)
 
@@ -580,6 +612,14 @@ def apply_live(tx, T, model_before, mut):
         def undo():
             ti.script, ti.witness = old[0], list(old[1])
         return undo
+    if kind == "spent_script_reencode":
+        u = tx.unspents[mut[1] % n_in]
+        old = u.script
+        new = _reencode_first_push(old)
+        if new is None:
+            raise HarnessError("spent_script_reencode applied to a script without a direct push")
+        u.script = new
+        return lambda: setattr(u, "script", old)
     if kind == "sig_hashtype":
         ti = ins[mut[1] % n_in]
         old = (ti.script, list(ti.witness))
